@@ -65,6 +65,7 @@ def run(repo, rep, tier):
                   'regex')
     r6 = rep.rule('C09.R6', 'per-compile parser state is re-initialised by every '
                   'entry point or reset in a finally')
+    _r9_cache_after_commit(repo, rep)
     mod = repo.module(MOF)
     mc = repo.cls(MOF, 'MOFCompiler')
     actions = [f for n, f in mod.functions.items()
@@ -643,3 +644,136 @@ def _r8_optional_attrs(repo, rep):
                                 'compile_string() calls get_err_msg() in its '
                                 'handler, so that exception escapes instead'
                                 % (base, prm, omitted[prm][0], norm(x, 40)))
+
+
+# containers of the parser object that mirror what the repository holds (the
+# grammar actions consult them instead of asking the repository)
+REPO_MIRRORS = {
+    'qualcache': 'qualifier declarations the repository accepted',
+    'classnames': 'names of classes known to exist in the repository',
+    'aliases': 'instance paths of instances created in the repository',
+}
+# written by mp_* actions but not a mirror of repository state
+NOT_MIRRORS = {
+    'embedded_objects': 'collects the instances INSTEAD of sending them to '
+                        'the repository (embedded instance mode)',
+}
+WRITE_OPS = ('CreateClass', 'ModifyClass', 'CreateInstance', 'ModifyInstance',
+             'SetQualifier')
+
+
+def _r9_cache_after_commit(repo, rep):
+    """C09.R9: an mp_* action records an object in one of the parser's
+    repository mirrors only on paths where the repository operation storing
+    that object has returned normally.  A mirror entry for a rejected
+    object survives the failed compile and later valid MOF compiled with the
+    same MOFCompiler is typed against it (wrong values, ValueError instead
+    of MOFCompileError, missing MOFDependencyError)."""
+    from ..cfg import CFG
+    r9 = rep.rule('C09.R9', 'repository mirrors of the parser are updated '
+                  'only after the repository operation succeeded')
+    mod = repo.module(MOF)
+    acts = [f for n, f in mod.functions.items() if n.startswith('p_mp_')]
+    if len(acts) < 3:
+        raise AnalysisError('mp_* grammar actions not found')
+
+    def mirror_of(st):
+        """(attr, value expr) when st stores into / appends to
+        p.parser.<attr>"""
+        tgt = val = None
+        if isinstance(st, ast.Assign) and len(st.targets) == 1 and \
+                isinstance(st.targets[0], ast.Subscript):
+            tgt, val = st.targets[0], st.value
+        elif isinstance(st, ast.Expr) and isinstance(st.value, ast.Call) and \
+                isinstance(st.value.func, ast.Attribute) and \
+                st.value.func.attr in ('append', 'add', 'update',
+                                       'setdefault', 'extend') and \
+                st.value.args:
+            tgt, val = st.value.func.value, st.value.args[-1]
+        if tgt is None:
+            return None
+        t = tgt
+        while isinstance(t, ast.Subscript):
+            t = t.value
+        d = dotted(t) or ''
+        if d.startswith('p.parser.') and d.count('.') == 2:
+            return d.split('.')[2], val
+        return None
+
+    def names(e):
+        return {x.id for x in ast.walk(e) if isinstance(x, ast.Name)} - {'p'}
+    for f in acts:
+        cfg = CFG(f.node)
+        writes = []        # (stmt, call, names)
+        for st in cfg.nodes:
+            if not isinstance(st, ast.stmt) or isinstance(
+                    st, (ast.If, ast.For, ast.While, ast.Try, ast.With)):
+                continue
+            for c in ast.walk(st):
+                if isinstance(c, ast.Call) and \
+                        (dotted(c.func) or '').startswith(
+                            'p.parser.handle.') and \
+                        c.func.attr in WRITE_OPS and c.args:
+                    ns_ = names(c.args[0])
+                    if isinstance(st, ast.Assign):
+                        for t in st.targets:
+                            ns_ |= names(t)
+                    writes.append((st, c, ns_))
+        for st in cfg.nodes:
+            if not isinstance(st, ast.stmt):
+                continue
+            m = mirror_of(st)
+            if m is None:
+                continue
+            attr, val = m
+            if attr in NOT_MIRRORS:
+                continue
+            if attr not in REPO_MIRRORS:
+                r9.undecided.append('%s: p.parser.%s is written but is not '
+                                    'classified' % (f.qualname, attr))
+                continue
+            # repository writes about the same object
+            N = names(val)
+            S = set()
+            changed = True
+            while changed:
+                changed = False
+                for wst, c, ns_ in writes:
+                    if wst not in S and ns_ & N:
+                        S.add(wst)
+                        N |= ns_ - {'ns', 'namespace'}
+                        changed = True
+            if not S:
+                continue          # records something else (e.g. a dependency)
+            r9.sites += 1
+            r9.functions.add(f.fq)
+            # is the store reachable without a write of S having returned?
+            seen = {cfg.ENTRY}
+            work = [cfg.ENTRY]
+            while work:
+                a = work.pop()
+                for b in cfg.succ[a]:
+                    if a in S and cfg.label.get((a, b)) == {'exc'}:
+                        pass            # the call raised: follow
+                    elif a in S:
+                        continue        # normal return of the write
+                    if b not in seen:
+                        seen.add(b)
+                        work.append(b)
+            ok = st not in seen
+            r9.ob(ok, '%s|%s' % (f.qualname, norm(st, 60)),
+                  {'mirror': attr, 'object': sorted(names(val)),
+                   'repository_writes': sorted(norm(w, 50) for w in S)})
+            if not ok:
+                rep.finding(r9, f.qualname, norm(st, 80), 'before-commit',
+                            MOF, st.lineno,
+                            'p.parser.%s (%s) is updated on a path on which '
+                            'none of %s has returned: if the repository '
+                            'rejects the object, the entry stays behind and '
+                            'later MOF compiled with the same MOFCompiler is '
+                            'checked against an object the repository never '
+                            'accepted' % (attr, REPO_MIRRORS[attr],
+                                          sorted(norm(w, 50) for w in S)))
+    if r9.sites < 3:
+        raise AnalysisError('C09.R9: only %d mirror updates found'
+                            % r9.sites)
